@@ -20,7 +20,7 @@ def gen_opt(rng):
         o = rng.choice(BOOL_OPTS)
         return ("opt", o[0], rng.random() < 0.5)
     if r < 0.85:
-        return ("optv", "ODelim", rng.random() < 0.5, rng.choice([",", " | ", ":", "\t", "--"[0:0] + ";"]))
+        return ("optv", "ODelim", rng.random() < 0.5, rng.choice([",", " | ", ":", "\t", "--"[0:0] + ";", "", ""]))       # the empty delimiter is a value like any other
     return ("optv", "OTempl", rng.random() < 0.5, rng.choice(["{{1}}", "<{{1}}>", "{{1}} and {{1}}", "x"]))
 
 
